@@ -135,7 +135,9 @@ std::vector<V> gen_rhs_vec(Tape &t, int n, bool nonzero) {
 // Constructive well-conditioned matrices: A = S1 (d * Phi + N) S2 with |N|_2 <= R := max(max row sum, max column sum of |N|),
 // Phi a unitary diagonal, S1, S2 diagonal scalings with entries in [1, 1.5]:  d = (1 + delta) R  =>  kappa2 <= 2.25 (2 + delta)/delta,
 // so a large d is always well conditioned; d is then reduced while the measured kappa2 stays below a log-uniform target in [1.2, 95].
-// want: 0 hermitian positive definite, 1 general
+// want: 0 hermitian positive definite, 1 general, 2 general with positive definite Hermitian part ("positive real":
+// mu := lambda_min((A + A^H)/2) / sigma_max(A) >= 0.1, the matrices on which the one-step minimal-residual polynomial of
+// BiCGStab-type methods cannot break down)
 template <class V>
 void gen_system(Tape &t, Case<V> &c, int want, int nmax = 40) {
     typedef typename VT<V>::S S;
@@ -180,9 +182,14 @@ void gen_system(Tape &t, Case<V> &c, int want, int nmax = 40) {
     double R = 0;
     for (int i = 0; i < n; ++i) R = std::max(R, std::max(rs[i], cs[i]));
     if (R == 0) R = 1;
-    bool allow_neg = !hpd && t.chance(1, 4);
+    bool posreal = want == 2;
+    bool allow_neg = !hpd && !posreal && t.chance(1, 4);
     std::vector<V> phi(n);
-    for (int i = 0; i < n; ++i) phi[i] = hpd ? make_val<V>(1, 0) : V(VT<V>::phase(t, allow_neg));
+    for (int i = 0; i < n; ++i) {
+        if (hpd) phi[i] = make_val<V>(1, 0);
+        else if (posreal) { double a = VT<V>::complex ? t.uni(-1.0, 1.0) : 0.0; phi[i] = make_val<V>(std::cos(a), std::sin(a)); }
+        else phi[i] = V(VT<V>::phase(t, allow_neg));
+    }
     bool scaled = t.b();
     std::vector<double> s1(n, 1.0), s2(n, 1.0);
     if (scaled) for (int i = 0; i < n; ++i) { s1[i] = t.uni(1.0, 1.5); s2[i] = hpd ? s1[i] : t.uni(1.0, 1.5); }
@@ -198,6 +205,11 @@ void gen_system(Tape &t, Case<V> &c, int want, int nmax = 40) {
         if (hpd) { Eigen::SelfAdjointEigenSolver<EMc> es(E, Eigen::EigenvaluesOnly); double lo = es.eigenvalues()(0), hi = es.eigenvalues()(n - 1); return lo > 0 ? hi / lo : 1e300; }
         EMc G = E.adjoint() * E;
         Eigen::SelfAdjointEigenSolver<EMc> es(G, Eigen::EigenvaluesOnly); double lo = es.eigenvalues()(0), hi = es.eigenvalues()(n - 1);
+        if (posreal) {
+            EMc H = (E + E.adjoint()) * 0.5;
+            Eigen::SelfAdjointEigenSolver<EMc> eh(H, Eigen::EigenvaluesOnly);
+            if (!(eh.eigenvalues()(0) >= 0.1 * std::sqrt(hi))) return 1e300;
+        }
         return lo > 0 ? std::sqrt(hi / lo) : 1e300;
     };
     double d = 3 * R;
@@ -207,7 +219,7 @@ void gen_system(Tape &t, Case<V> &c, int want, int nmax = 40) {
     for (int i = 0; i < n; ++i) for (auto &kv : rows[i]) kv.second = V(s1[i] * s2[kv.first]) * kv.second;
     c.n = n; c.hpd = hpd;
     c.A = from_triplets<V>(n, n, rows);
-    c.fam += hpd ? "/hpd" : "/gen";
+    c.fam += hpd ? "/hpd" : posreal ? "/posreal" : "/gen";
     c.Ad = ref::Mat<S>(n);
     std::vector<V> Afull(static_cast<size_t>(n) * n, V());
     for (int i = 0; i < n; ++i) for (auto &kv : rows[i]) { c.Ad(i, static_cast<int>(kv.first)) = S(kv.second); Afull[static_cast<size_t>(i) * n + kv.first] = kv.second; }
@@ -311,6 +323,36 @@ Out<V> run_amgcl(const Case<V> &c, const typename SolverT::params &sp) {
     return o;
 }
 
+// The same library templates instantiated for the extended value type (long double / complex<long double>) on the
+// same data: lets the finite-termination claim, a statement about exact arithmetic, be tested on the library's own
+// recurrences with rounding pushed from 1e-16 to 5e-20.
+template <template <class, class> class SolverTT, class V, class SetP>
+Out<typename VT<V>::S> run_amgcl_ext(const Case<V> &c, const SetP &setp) {
+    typedef typename VT<V>::S X;
+    typedef amgcl::backend::builtin<X> B;
+    typedef SolverTT<B, amgcl::solver::detail::default_inner_product> SolverT;
+    Csr<X> Ax; Ax.n = c.A.n; Ax.m = c.A.m; Ax.ptr = c.A.ptr; Ax.col = c.A.col; Ax.val.assign(c.A.val.begin(), c.A.val.end());
+    auto A = to_crs<X>(Ax);
+    Out<X> o; o.x.assign(c.x0d.begin(), c.x0d.end());
+    std::vector<X> b(c.bd.begin(), c.bd.end());
+    typename SolverT::params sp; setp(sp);
+    if (c.pkind == 0) {
+        typedef amgcl::make_solver<amgcl::preconditioner::dummy<B>, SolverT> MS;
+        typename MS::params prm; prm.solver = sp;
+        MS S(A, prm);
+        auto r = S(b, o.x);
+        o.iters = std::get<0>(r); o.resid = static_cast<double>(std::get<1>(r));
+    } else {
+        typedef amgcl::make_solver<dense_precond<B>, SolverT> MS;
+        typename MS::params prm; prm.solver = sp;
+        prm.precond.M = std::make_shared<std::vector<X>>(c.Md.a.begin(), c.Md.a.end());
+        MS S(A, prm);
+        auto r = S(b, o.x);
+        o.iters = std::get<0>(r); o.resid = static_cast<double>(std::get<1>(r));
+    }
+    return o;
+}
+
 template <class V, class S>
 long double dist(const std::vector<V> &x, const ref::Vec<S> &y) {
     long double s = 0;
@@ -386,10 +428,11 @@ struct Count {
 // preconditioner kinds, identity/Jacobi/random twice as likely as exact (which converges in one step)
 inline int pick_precond(Tape &t) { static const int kinds[] = {0, 2, 3, 1, 0, 2, 3}; return kinds[t.u(0, 6)]; }
 
-// Known findings (see known/): for complex value types the library's BiCGStab takes alpha = rho / (v^H r^) and
-// omega = (s^H t)/(t^H t), i.e. the conjugates of the textbook coefficients, and the GMRES family uses plane rotations
-// that are not unitary for complex arguments.  Both coincide with the textbook method whenever all inner products are
-// real: real value type, or Hermitian matrix with the identity preconditioner.
+// Known finding (see known/): for complex value types the GMRES family uses plane rotations that are not unitary
+// (cs = 1/sqrt(1 + t*t) with t complex), so from k = 2 on the computed update is not the least-squares minimiser.  It
+// coincides with the textbook method whenever the Hessenberg matrix is real: real value type, or Hermitian matrix with
+// the identity preconditioner.  (BiCGStab had its complex coefficients conjugated; fixed in /repo by 07c1c61,
+// regression: replay/C05/bicgstab-complex-conj*.case.)
 template <class V> bool complex_nonhermitian(const Case<V> &c) { return VT<V>::complex && !(c.hpd && c.pkind == 0); }
 // family / preconditioner choice of the non-symmetric solvers; the complex TU draws the Hermitian + identity corner
 // (where the complex code paths are asserted for every k) more often
@@ -452,7 +495,6 @@ void prop_bicgstab(Tape &t, Ctx &ctx) {
     ctx.desc << "bicgstab side=" << (left ? "left" : "right") << " " << describe_case(c) << " K=" << K;
     if (!in_domain(c, ctx)) return;
     ctx.label(left ? "side:left" : "side:right");
-    if (complex_nonhermitian(c) && ctx.known("F-bicgstab-complex-conj")) return;
     ref::Sys<S> s; s.A = &c.Ad; s.M = c.Mp(); s.b = c.bd; s.left = left;
     ref::Trace<S> tr = ref::bicgstab<S>(s, c.x0d, K);
     Twin<V> w(c);
@@ -569,15 +611,28 @@ void prop_richardson(Tape &t, Ctx &ctx) {
 // ================================================================= finite termination
 // With the exact or the identity preconditioner every method reaches the solution (true relative residual <= 1e-8)
 // within n iterations (+ceil(n/s) for IDR(s); BiCGStab(L) advances L steps per sweep, so it needs ceil(n/L) L <= n+L-1).
+// The restart length of the GMRES family is n (restarted GMRES(M<n) has no finite-termination property).
 // The solver is asked for tol = 1e-10 (so that it stops when it has converged instead of iterating on rounding noise)
 // and the TRUE residual, computed in long double from the CSR arrays, must be <= 1e-8.
+//
+// Calibration (unchanged tree, 6 seeds x 4000 cases): CG, GMRES, FGMRES, LGMRES and Richardson never needed more than
+// the bound in double precision on any family (including indefinite matrices).  The short-recurrence methods BiCGStab,
+// BiCGStab(L), IDR(s) did on 13% of the general matrices whose Hermitian part is indefinite (up to 24 extra iterations,
+// equally in long double and equally for the textbook long-double BiCGStab: omega = (t,s)/(t,t) gets close to a
+// breakdown there; this is a property of the methods, not of the implementation) but on none of 3300 matrices with
+// mu = lambda_min((A+A^H)/2)/sigma_max(A) >= 0.05.  For these three methods the non-Hermitian family is therefore
+// restricted by construction to mu >= 0.1 ("positive real" matrices), the bound itself is asserted on the library's own
+// templates instantiated for long double (finite termination is a statement about exact arithmetic; rounding 5e-20
+// instead of 1e-16, same data), and in double precision two extra iterations are allowed for rounding.
 template <class V>
 void prop_fterm(Tape &t, Ctx &ctx) {
     typedef amgcl::backend::builtin<V> B;
     int method = static_cast<int>(t.u(0, 7)); // cg bicgstab bicgstabl gmres fgmres lgmres idrs richardson
     const char *mn[] = {"cg", "bicgstab", "bicgstabl", "gmres", "fgmres", "lgmres", "idrs", "richardson"};
     Case<V> c;
-    gen_system(t, c, method == 0 ? 0 : (t.chance(1, 4) ? 0 : 1));
+    bool shortrec = method == 1 || method == 2 || method == 6;
+    int fam = pick_family<V>(t);
+    gen_system(t, c, method == 0 ? 0 : (shortrec && fam == 1) ? 2 : fam);
     int pk = method == 7 ? 1 : static_cast<int>(t.u(0, 1));
     gen_precond(t, c, pk);
     gen_vectors(t, c);
@@ -585,40 +640,66 @@ void prop_fterm(Tape &t, Ctx &ctx) {
     int n = c.n;
     int bound = n;
     std::ostringstream par;
-    Out<V> o;
     auto side = left ? amgcl::preconditioner::side::left : amgcl::preconditioner::side::right;
-    auto prep = [&](auto &sp) { sp.maxiter = bound; sp.tol = 1e-10; sp.abstol = 0; };
     static const int Ls[] = {1, 2, 4};
     int L = Ls[t.u(0, 2)];
     int s = static_cast<int>(t.u(1, std::min(8, n)));
     int Kaug = static_cast<int>(t.u(0, 3));
-    if (method == 2) { bound = n + L - 1; par << " L=" << L << " side=" << (left ? "left" : "right"); }
-    if (method == 6) { bound = n + (n + s - 1) / s; par << " s=" << s; }
+    bool smoothing = t.chance(1, 4), replacement = t.chance(1, 4), om0 = t.chance(1, 4); // IDR(s) options
+    bool convex = t.b();                                                                 // BiCGStab(L) option
+    if (method == 2) { bound = n + L - 1; par << " L=" << L << " convex=" << convex << " side=" << (left ? "left" : "right"); }
+    if (method == 6) { bound = n + (n + s - 1) / s; par << " s=" << s << " smoothing=" << smoothing << " replacement=" << replacement << " omega=" << (om0 ? 0.0 : 0.7); }
     if (method == 1 || method == 3 || method == 5) par << " side=" << (left ? "left" : "right");
     ctx.desc << "finite-termination " << mn[method] << par.str() << " bound=" << bound << " " << describe_case(c);
     if (!in_domain(c, ctx)) return;
     ctx.label(std::string("method:") + mn[method]);
-    if (method == 1 && complex_nonhermitian(c) && ctx.known("F-bicgstab-complex-conj")) return;
+    // Known finding: IDR(s) computes omega = (s^H t)/(t^H t) = conj of the minimal-residual value for complex data, so the
+    // "minimal residual" step amplifies components whose eigenvalue has a non-zero phase; in floating point the finite
+    // termination is then lost for n ~ 20 (witness known/C05-idrs-complex-omega-conj.case: n = 21, kappa2 = 1.19, s = 1).
+    if (method == 6 && complex_nonhermitian(c) && ctx.known("F-idrs-complex-omega-conj")) return;
+    int maxit = shortrec ? bound + 2 : bound;
+    auto prep = [&](auto &sp, int mi) { sp.maxiter = mi; sp.tol = 1e-10; sp.abstol = 0; };
+    Out<V> o;
     switch (method) {
-    case 0: { typedef amgcl::solver::cg<B> Sv; typename Sv::params sp; prep(sp); o = run_amgcl<Sv>(c, sp); break; }
-    case 1: { typedef amgcl::solver::bicgstab<B> Sv; typename Sv::params sp; prep(sp); sp.pside = side; o = run_amgcl<Sv>(c, sp); break; }
-    case 2: { typedef amgcl::solver::bicgstabl<B> Sv; typename Sv::params sp; prep(sp); sp.L = L; sp.pside = side; sp.convex = t.b(); o = run_amgcl<Sv>(c, sp); break; }
-    case 3: { typedef amgcl::solver::gmres<B> Sv; typename Sv::params sp; prep(sp); sp.M = std::max(n, 1); sp.pside = side; o = run_amgcl<Sv>(c, sp); break; }
-    case 4: { typedef amgcl::solver::fgmres<B> Sv; typename Sv::params sp; prep(sp); sp.M = std::max(n, 1); o = run_amgcl<Sv>(c, sp); break; }
-    case 5: { typedef amgcl::solver::lgmres<B> Sv; typename Sv::params sp; prep(sp); sp.M = std::max(n, 1); sp.K = Kaug; sp.pside = side; o = run_amgcl<Sv>(c, sp); break; }
-    case 6: { typedef amgcl::solver::idrs<B> Sv; typename Sv::params sp; prep(sp); sp.s = s; o = run_amgcl<Sv>(c, sp); break; }
-    default: { typedef amgcl::solver::richardson<B> Sv; typename Sv::params sp; prep(sp); sp.damping = 1.0; o = run_amgcl<Sv>(c, sp); break; }
+    case 0: { typedef amgcl::solver::cg<B> Sv; typename Sv::params sp; prep(sp, maxit); o = run_amgcl<Sv>(c, sp); break; }
+    case 1: { typedef amgcl::solver::bicgstab<B> Sv; typename Sv::params sp; prep(sp, maxit); sp.pside = side; o = run_amgcl<Sv>(c, sp); break; }
+    case 2: { typedef amgcl::solver::bicgstabl<B> Sv; typename Sv::params sp; prep(sp, maxit); sp.L = L; sp.pside = side; sp.convex = convex; o = run_amgcl<Sv>(c, sp); break; }
+    case 3: { typedef amgcl::solver::gmres<B> Sv; typename Sv::params sp; prep(sp, maxit); sp.M = std::max(n, 1); sp.pside = side; o = run_amgcl<Sv>(c, sp); break; }
+    case 4: { typedef amgcl::solver::fgmres<B> Sv; typename Sv::params sp; prep(sp, maxit); sp.M = std::max(n, 1); o = run_amgcl<Sv>(c, sp); break; }
+    case 5: { typedef amgcl::solver::lgmres<B> Sv; typename Sv::params sp; prep(sp, maxit); sp.M = std::max(n, 1); sp.K = Kaug; sp.pside = side; o = run_amgcl<Sv>(c, sp); break; }
+    case 6: { typedef amgcl::solver::idrs<B> Sv; typename Sv::params sp; prep(sp, maxit); sp.s = s; sp.smoothing = smoothing; sp.replacement = replacement; sp.omega = om0 ? 0.0 : 0.7; o = run_amgcl<Sv>(c, sp); break; }
+    default: { typedef amgcl::solver::richardson<B> Sv; typename Sv::params sp; prep(sp, maxit); sp.damping = 1.0; o = run_amgcl<Sv>(c, sp); break; }
     }
     long double rr = true_relres(c.A, c.b, o.x);
     long double r0 = true_relres(c.A, c.b, c.x0);
     ctx.nontrivial = n >= 2 && o.iters >= 2 && r0 > 1e-6;
+    if (shortrec) ctx.label(std::string("shortrec-family:") + (c.hpd ? "hpd" : "posreal"));
     ctx.label(o.iters >= 2 ? "iters>=2" : "iters<2");
     ctx.label(static_cast<int>(o.iters) >= n ? "used-all-n" : "early");
-    calib.see(std::string("fterm-") + mn[method] + ":iters/bound", static_cast<double>(o.iters) / std::max(1, bound));
-    calib.see(std::string("fterm-") + mn[method] + ":relres", static_cast<double>(rr));
-    VF_REQUIRE(static_cast<int>(o.iters) <= bound, mn[method] << ": " << o.iters << " iterations reported with maxiter=" << bound);
-    VF_REQUIRE(rr <= 1e-8L, mn[method] << par.str() << ": true relative residual " << static_cast<double>(rr) << " after " << o.iters << " iterations (bound " << bound
-               << " for n=" << n << "), initial " << static_cast<double>(r0) << ", reported " << o.resid);
+    if (calib.on) {
+        std::string kb = c.kappaA <= 10 ? "k<=10" : c.kappaA <= 30 ? "k<=30" : "k<=100";
+        kb += n <= 4 ? " n<=04" : n <= 8 ? " n<=08" : n <= 12 ? " n<=12" : n <= 20 ? " n<=20" : n <= 30 ? " n<=30" : " n<=40";
+        calib.see(std::string("fterm-") + mn[method] + " " + kb + " " + Case<V>::pname(c.pkind) + ":iters-bound+100", 100 + static_cast<double>(o.iters) - bound); // (iterations until the solver's own 1e-10 test fires)
+        calib.see(std::string("fterm-") + mn[method] + ":relres", static_cast<double>(rr));
+    }
+    VF_REQUIRE(static_cast<int>(o.iters) <= maxit, mn[method] << ": " << o.iters << " iterations reported with maxiter=" << maxit);
+    VF_REQUIRE(rr <= 1e-8L, mn[method] << par.str() << ": true relative residual " << static_cast<double>(rr) << " after " << o.iters << " iterations (allowed " << maxit
+               << ", bound " << bound << " for n=" << n << "), initial " << static_cast<double>(r0) << ", reported " << o.resid);
+    if (!shortrec) return;
+    if (static_cast<int>(o.iters) > bound) ctx.label(std::string("double-needs-more-than-bound:") + mn[method]);
+    // the library's recurrences in extended precision: the bound itself
+    typedef typename VT<V>::S X;
+    Out<X> ox;
+    switch (method) {
+    case 1: ox = run_amgcl_ext<amgcl::solver::bicgstab>(c, [&](auto &sp) { prep(sp, bound); sp.pside = side; }); break;
+    case 2: ox = run_amgcl_ext<amgcl::solver::bicgstabl>(c, [&](auto &sp) { prep(sp, bound); sp.L = L; sp.pside = side; sp.convex = convex; }); break;
+    default: ox = run_amgcl_ext<amgcl::solver::idrs>(c, [&](auto &sp) { prep(sp, bound); sp.s = s; sp.smoothing = smoothing; sp.replacement = replacement; sp.omega = om0 ? 0.0 : 0.7; }); break;
+    }
+    long double rx = true_relres(c.A, std::vector<X>(c.bd.begin(), c.bd.end()), ox.x);
+    if (calib.on) calib.see(std::string("fterm-ext-") + mn[method] + ":relres", static_cast<double>(rx));
+    VF_REQUIRE(static_cast<int>(ox.iters) <= bound, mn[method] << " (long double): " << ox.iters << " iterations reported with maxiter=" << bound);
+    VF_REQUIRE(rx <= 1e-8L, mn[method] << par.str() << " (library templates in long double): true relative residual " << static_cast<double>(rx) << " after " << ox.iters
+               << " iterations (bound " << bound << " for n=" << n << "), initial " << static_cast<double>(r0) << ", reported " << ox.resid);
 }
 
 template <class V>
